@@ -256,6 +256,13 @@ func record(t *core.Tape, sc *Scenario, r *RunResult) *recorded {
 		r.Inconclusive = "baseline exchange has no outcome"
 		return nil
 	}
+	if ex.TrailerOverflow {
+		// HTTP/1.1 cannot carry this exchange's trailer block: not a valid
+		// exchange to re-deliver
+		r.Probes["skipped_http1_trailer_overflow"]++
+		r.Status = "done"
+		return nil
+	}
 	rec := &recorded{sc: sc, plan: o.Plan, proto: sc.Clients[0].Proto,
 		reqHdr: ex.ReqHeader.Clone(), reqBody: ex.Up.Bytes(), status: ex.Status,
 		respHdr: ex.RespHeader.Clone(), respBody: ex.Down.Bytes(), trailer: ex.Trailer.Clone(), writes: ex.Writes,
